@@ -36,6 +36,10 @@ def jobs(tier, s0):
         # second probe: a multi-objective task whose weights differ from the earlier run's
         for h in ([EVENTS[6]], [EVENTS[1]], [EVENTS[6], EVENTS[4]]):
             out.append((_scn(n, 'mo2', cycles=2, seed=s0, runner='c08', history=h, weights=[0.0, 1.0]), {'d': 0}))
+        # third probe: early stopping configured in the probe run itself (its first rate change must be r_1 - 0)
+        es = {'fitness_error': None, 'max_cycles': 3, 'early_stopping': {'patience': 1, 'min_delta': 10.0}}
+        for h in ([EVENTS[0]], [EVENTS[4]], [EVENTS[5]], [EVENTS[2]]):
+            out.append((_scn(n, 'cont3z', cycles=3, seed=s0, runner='c08', history=h, over=es), {'d': 0}))
         for mm in ('max',):
             for h in ([EVENTS[0]], [EVENTS[5]], [EVENTS[4]]):
                 out.append((_scn(n, 'cont3z', mm, cycles=2, seed=s0, runner='c08', history=h), {'d': 0}))
